@@ -122,6 +122,28 @@ inline Universe cw_small() {
   return U;
 }
 
+// a graph on 10 vertices (all pairs except the perfect matching i -- 9-i: 40 edges) and 9 triangles on it = 59 cells.
+// b_1 reaches 40 - 10 + 1 = 31 (every edge present, no triangle): many classes of ONE dimension alive at once, which is still
+// inside what zigzag_ranks.h can represent (<= 32 classes per dimension)
+inline Universe wide_graph() {
+  Universe U; U.kind = "simplicial";
+  const int m = 10;
+  std::vector<int> v; std::map<std::pair<int, int>, int> e;
+  for (int i = 0; i < m; ++i) v.push_back(U.add(0, 0, 0, "[" + vh::str(i) + "]"));
+  for (int i = 0; i < m; ++i) for (int j = i + 1; j < m; ++j) {
+    if (i + j == m - 1) continue;
+    Chain c = bit(v[i]) | bit(v[j]);
+    e[{i, j}] = U.add(1, c, c, "[" + vh::str(i) + vh::str(j) + "]");
+  }
+  const int tri[9][3] = {{0, 1, 2}, {2, 3, 4}, {4, 6, 8}, {5, 6, 7}, {7, 8, 9}, {0, 5, 8}, {1, 3, 9}, {2, 6, 9}, {1, 4, 7}};
+  for (auto& t : tri) {
+    Chain c = bit(e.at({t[0], t[1]})) | bit(e.at({t[0], t[2]})) | bit(e.at({t[1], t[2]}));
+    U.add(2, c, c, "[" + vh::str(t[0]) + vh::str(t[1]) + vh::str(t[2]) + "]");
+  }
+  return U;
+}
+const int kWideUniverse = 14;
+
 inline const std::vector<Universe>& universes() {
   static const std::vector<Universe> us = [] {
     std::vector<Universe> v;
@@ -139,6 +161,7 @@ inline const std::vector<Universe>& universes() {
     v.push_back(cw_small());         // 11
     v.push_back(simplicial(7, 1));   // 12  graphs on 7 vertices (churn configs)
     v.push_back(simplicial(6, 2));   // 13 = 4, listed again so that the churn universes are contiguous
+    v.push_back(wide_graph());       // 14  (wide configs only)
     return v;
   }();
   return us;
@@ -179,6 +202,9 @@ struct GenParams {
   int nmin = 5, nmax = 28;
   bool insertion_only = false;
   bool churn = false;   // many vertices first, then edges / 2-cells inserted and removed around a plateau (many classes alive at once)
+  bool wide = false;    // (with churn, universe 14) every vertex, then 24-38 edges, then edges / triangles in and out: b_1 up to 31
+  bool periodic = false;  // growth / shrinking periods of 20-80 operations (80 % / 25 % insertions) instead of the short phases
+  bool edge_values = false;  // filtered classes: value sequences that contain +-infinity (see dress())
 };
 
 inline int pick_churn_universe(vh::Rng& r) {
@@ -204,10 +230,22 @@ inline std::vector<Op> gen_history(vh::Rng& r, const Universe& U, const GenParam
     std::vector<int> vs; for (size_t c = 0; c < U.cells.size(); ++c) if (U.cells[c].dim == 0) vs.push_back((int)c);
     r.shuffle(vs);
     size_t keep = std::max<size_t>(3, vs.size() - r.below(vs.size() / 3 + 1));
+    if (gp.wide) keep = vs.size();
     for (size_t k = 0; k < keep && k < vs.size() && (int)ops.size() < n; ++k) { M.K |= bit(vs[k]); ins_time[vs[k]] = (int)ops.size(); ops.push_back(Op{0, vs[k]}); }
+    if (gp.wide) {
+      const int target = (int)r.range(24, 38);
+      for (int k = 0; k < target && (int)ops.size() < n; ++k) {
+        std::vector<int> B; for (int x : M.insertable()) if (U.cells[x].dim == 1) B.push_back(x);
+        if (B.empty()) break;
+        int c = r.pick(B);
+        M.K |= bit(c); ins_time[c] = (int)ops.size(); ops.push_back(Op{0, c});
+      }
+    }
     i0 = (int)ops.size();
   }
+  const int period = gp.periodic ? (int)r.range(20, 80) : 1;
   for (int i = i0; i < n; ++i) {
+    if (gp.periodic) { p_ins = ((i / period) % 2 == 0) ? 80u : 25u; phase_left = 1; }
     if (phase_left == 0 && gp.churn) {
       p_ins = (i == i0) ? 85u : (unsigned)r.pick(std::vector<int>{70, 55, 50, 45, 35});
       phase_left = (i == i0) ? (int)r.range(2, 8) : (int)r.range(3, 12);
